@@ -21,7 +21,7 @@ LEVEL_TEXT = ('every state reachable by at most d commands (quick d=5, thorough 
 LEVEL_NOTE = ('exhaustive to the stated depth only; canonicalisation drops directory/.trashinfo mtimes and inode numbers, which no trash-cli code path reads (grep st_mtime|st_ino is empty); '
               'trusted: R3/R4/R5 reference models')
 RULE = ('alphabet: one run putting a file and a symlink to it; put of 6 entries (re-created with path-determined content when absent; four of them share the base name "a" - one of these is a dangling symlink, one a symlink to a file in another directory -, one is a directory, two live on /mnt/v1, one of them with a percent escape and a trailing blank in its name), restore with '
-        '(scope, reply) in {(/,0),(/home/u/w,0),(/,0-1),(/mnt/v1,0)}, rm {a,*,/home/u/w/*}, empty -i answered y, empty 1, empty 0 (entries of the current day are exactly at the limit and stay), tick (+1 day, at most 2); BFS to the depth bound; distinct = transition outcome labels')
+        '(scope, reply) in {(/,0),(/home/u/w,0),(/,0-1),(/mnt/v1,0)}, rm {a,*,/home/u/w/*}, empty -i answered y, empty 1, empty 0 (entries of the current day are exactly at the limit and stay), tick (+25 hours, at most 2); BFS to the depth bound; distinct = transition outcome labels')
 DEPTH = {'quick': 5, 'thorough': 6}
 STATE_CAP = {'quick': 60000, 'thorough': 400000}
 BASE = '2024-03-01T12:00:00'
@@ -38,7 +38,8 @@ ENV = {'HOME': '/home/u'}
 def now_of(day):
     import datetime
     real = getattr(datetime, '_vt_real_datetime', datetime.datetime)
-    return (real.strptime(BASE, '%Y-%m-%dT%H:%M:%S') + datetime.timedelta(days=day)).strftime('%Y-%m-%dT%H:%M:%S')
+    # a tick is 25 hours: after one tick "1 day ago" lies an hour AFTER the entries of the previous day (a clock that is a few hours off shows)
+    return (real.strptime(BASE, '%Y-%m-%dT%H:%M:%S') + datetime.timedelta(days=day, hours=day)).strftime('%Y-%m-%dT%H:%M:%S')
 
 
 def _snap_of_nodes(nodes):
